@@ -29,7 +29,11 @@ def gen(rng, tier):
         focus["nested"] = True
     if rng.random() < 0.4:
         focus["facilities"] = True
-    return C.forward_spec(rng, tier, focus)
+    return C.maybe_history(rng, C.forward_spec(rng, tier, focus), 0.3)
+
+
+def extra_candidates(spec):
+    return C.history_candidates(spec)
 
 
 def check_trace(res, tr):
@@ -72,7 +76,7 @@ def check_trace(res, tr):
                 res.count("component_finished")
     steps = C.full_steps(rec)
     for c in tr.ix.comps:
-        log = [int(x) for x in c.state_record_list]
+        log = [int(x) for x in c.state_record_list][getattr(tr, "log_offset", 0):]
         for i, s in enumerate(steps[: len(log)]):
             live = s.ph["recorded"]["C"][c.ID][0]
             working = s.t not in tr.absence
